@@ -11,7 +11,7 @@
        xdesc   = [lo0 srx stx theta hi3 fallback]
      outs = [call_out ...]
        call_out    = [[attempt_out ...] ok ts off err prev]
-       attempt_out = [dst lvm org.s org.f rx.s rx.f tx.s tx.f result]   (the request as seen on the wire, and the server it went to)
+       attempt_out = [dst rxok lvm org.s org.f rx.s rx.f tx.s tx.f result]   (the server the request went to; whether the receive time the client used is not earlier than the departure of the first datagram sent to it; the request as seen on the wire)
        result      = [0 errclass] | [1 inter t0 t1 t2 t3 off rtd at prev]
        prev        = [ref inter ctx.s ctx.f crx.s crx.f srx.s srx.f]
    case "c03.fallback", "c03.multi", "c03.nofilter", "c03.kstamps": see below *)
@@ -79,7 +79,7 @@ Definition result_val (r : ares) : value :=
 
 Definition attempt_val (ref : Z) (x : bool * pkt * ares) : value :=
   let '(_, q, r) := x in
-  VL [VZ ref; VZ (k_lvm q);
+  VL [VZ ref; VZ 1; VZ (k_lvm q);
       VZ (t64_sec (k_org q)); VZ (t64_frac (k_org q));
       VZ (t64_sec (k_rx q)); VZ (t64_frac (k_rx q));
       VZ (t64_sec (k_tx q)); VZ (t64_frac (k_tx q)); result_val r].
@@ -110,7 +110,7 @@ Fixpoint run_history (c : cfg) (p : prev_t) (calls : list (bool * list attempt_i
 (* ---- the oracle on the implementation's observations ---- *)
 Definition obs_accept (v : value) : option (Z * Z * Z * Z * Z) :=
   match v with
-  | VL [_; _; _; _; _; _; _; _; VL (VZ 1 :: _ :: VZ t0 :: VZ t1 :: VZ t2 :: VZ t3 :: VZ off :: _)] =>
+  | VL [_; _; _; _; _; _; _; _; _; VL (VZ 1 :: _ :: VZ t0 :: VZ t1 :: VZ t2 :: VZ t3 :: VZ off :: _)] =>
       Some (off, t0, t1, t2, t3)
   | _ => None
   end.
